@@ -31,8 +31,13 @@ type failure struct {
 	at          int
 }
 
+// One block cache for all DBs of the process (every DB gets its own handle in it): creating an
+// 8 MiB cache per history dominated the profile.
+var sharedCache = pebble.NewCache(64 << 20)
+
 func openDB(cfg hx.Config, collector bool) (*hx.X, error) {
 	o := cfg.Options(vfs.NewMem())
+	o.Cache = sharedCache
 	if collector {
 		o.BlockPropertyCollectors = []func() pebble.BlockPropertyCollector{sstable.NewTestKeysBlockPropertyCollector}
 	}
@@ -60,17 +65,20 @@ func iterOptions(ic IterCfg) *pebble.IterOptions {
 }
 
 func applyReal(it *pebble.Iterator, op IOp) bool {
+	if op.kb == nil && op.Key != "" {
+		op.kb = []byte(op.Key)
+	}
 	switch op.Op {
 	case "First":
 		return it.First()
 	case "Last":
 		return it.Last()
 	case "SeekGE":
-		return it.SeekGE([]byte(op.Key))
+		return it.SeekGE(op.kb)
 	case "SeekLT":
-		return it.SeekLT([]byte(op.Key))
+		return it.SeekLT(op.kb)
 	case "SeekPrefixGE":
-		return it.SeekPrefixGE([]byte(op.Key))
+		return it.SeekPrefixGE(op.kb)
 	case "Next":
 		return it.Next()
 	case "Prev":
@@ -183,6 +191,13 @@ func scripts(probes []string) [][]IOp {
 	out = append(out, a, c)
 	for i := range b {
 		out = append(out, b[i:])
+	}
+	for _, sc := range out {
+		for i := range sc {
+			if sc[i].Key != "" {
+				sc[i].kb = []byte(sc[i].Key)
+			}
+		}
 	}
 	return out
 }
